@@ -407,6 +407,8 @@ def check(ctx):
                                 r6.ok("%s: %s.%s = parse_type_structure(..)" % (short_path(f.id), short_path(rv["adt"]), name))
                             elif o[0] == "aggr":
                                 r6.ok("%s: %s.%s = constant %s" % (short_path(f.id), short_path(rv["adt"]), name, o[1].get("variant")))
+                            elif o[0] == "multi" and o[2] and all(x[0] == "aggr" or (x[0] == "call" and short_path(x[1].best) == "TypeResolver::parse_type_structure") for x in o[2]):
+                                r6.ok("%s: %s.%s = one of %d constants / parse_type_structure results" % (short_path(f.id), short_path(rv["adt"]), name, len(o[2])))
                             else:
                                 r6.bad(V(r6.id, f.id, "structure-origin:%s.%s" % (short_path(rv["adt"]), name),
                                          "%s.%s is not produced by parse_type_structure: %s" % (rv["adt"], name, f.describe_origin(o)), f.file, st.get("line")))
